@@ -782,6 +782,7 @@ func (se *symExec) assignTo(lhs ast.Expr, v val, st *sstate, pos token.Pos, src 
 		}
 		st.seq++
 		st.assigns = append(st.assigns, assignRec{lhs: se.canon(l), rhs: v, src: src, pos: pos, seq: st.seq})
+		st.forgetText(se.canon(l.X) + "[") // what was known about the container's elements no longer holds
 		return
 	case *ast.StarExpr:
 		st.seq++
@@ -1141,6 +1142,15 @@ func posForm(c string) (string, bool) {
 	return c, true
 }
 
+// forgetText drops decided conditions whose text contains t.
+func (s *sstate) forgetText(t string) {
+	for k := range s.known {
+		if strings.Contains(k, t) {
+			delete(s.known, k)
+		}
+	}
+}
+
 // forget drops decided conditions that mention a reassigned variable.
 func (s *sstate) forget(name string) {
 	for k := range s.known {
@@ -1310,30 +1320,34 @@ func (se *symExec) branch(cond ast.Expr, st *sstate) (tr, fa []*sstate) {
 				continue
 			}
 		}
+		// the two texts of this test: as asserted and as denied
+		cs := se.canon(cond)
+		if r.v.kind == vBool && r.v.desc != "" && identOf(cond) != nil {
+			cs = r.v.desc // a flag variable is shown as the test that produced it
+		}
+		posT, negT := normCond(cs), normCond("!("+cs+")")
+		if r.v.kind == vBool && r.v.lin != nil && negOp[r.v.cmp] != "" {
+			// an integer comparison (or a flag holding one): canonical linear form, whatever the way it is written
+			posT, negT = linCondNamed(r.v.lin, r.v.cmp, r.v.cnam), linCondNamed(r.v.lin, negOp[r.v.cmp], r.v.cnam)
+		}
 		// a condition already decided on this path (and whose operands were not reassigned since)
-		if se.emitMode {
-			key, pos := posForm(se.canon(cond))
-			if v, ok := r.st.known[key]; ok {
-				if v == pos {
-					tr = append(tr, r.st)
-				} else {
-					fa = append(fa, r.st)
-				}
-				continue
+		if v, ok := r.st.known[posT]; ok {
+			if v {
+				tr = append(tr, r.st)
+			} else {
+				fa = append(fa, r.st)
 			}
+			continue
 		}
 		t, f := r.st, r.st.clone()
-		if se.emitMode {
-			key, pos := posForm(se.canon(cond))
-			if t.known == nil {
-				t.known = map[string]bool{}
-			}
-			if f.known == nil {
-				f.known = map[string]bool{}
-			}
-			t.known[key] = pos
-			f.known[key] = !pos
+		if t.known == nil {
+			t.known = map[string]bool{}
 		}
+		if f.known == nil {
+			f.known = map[string]bool{}
+		}
+		t.known[posT], t.known[negT] = true, false
+		f.known[posT], f.known[negT] = false, true
 		if id := identOf(cond); id != nil {
 			if obj := se.info.Uses[id]; obj != nil {
 				if bt, ok := obj.Type().Underlying().(*types.Basic); ok && bt.Kind() == types.Bool {
@@ -1342,18 +1356,8 @@ func (se *symExec) branch(cond ast.Expr, st *sstate) (tr, fa []*sstate) {
 				}
 			}
 		}
-		cs := se.canon(cond)
-		if r.v.kind == vBool && r.v.desc != "" && identOf(cond) != nil {
-			cs = r.v.desc // a flag variable is shown as the test that produced it
-		}
-		if r.v.kind == vBool && r.v.lin != nil && negOp[r.v.cmp] != "" {
-			// an integer comparison (or a flag holding one): canonical linear form, whatever the way it is written
-			t.conds = append(t.conds, linCondNamed(r.v.lin, r.v.cmp, r.v.cnam))
-			f.conds = append(f.conds, linCondNamed(r.v.lin, negOp[r.v.cmp], r.v.cnam))
-		} else {
-			t.conds = append(t.conds, cs)
-			f.conds = append(f.conds, "!("+cs+")")
-		}
+		t.conds = append(t.conds, posT)
+		f.conds = append(f.conds, negT)
 		// refine: !(e > 0) for a non-negative quantity (masked bit-field, length) means e == 0
 		if b, ok := cond.(*ast.BinaryExpr); ok && b.Op == token.GTR && r.v.kind == vBool && r.v.lin != nil {
 			if sym, ok := r.v.lin.singleSym(); ok && nonNegSym(sym) {
@@ -1756,6 +1760,7 @@ func (se *symExec) loopCommon(pos token.Pos, body *ast.BlockStmt, whole ast.Node
 	}
 	rets = append(rets, r...)
 	after := entry.clone()
+	after.forgetText("has(") // the body may have changed the containers
 	for _, o := range se.assignedIn(whole) {
 		after.vars[o] = unk("after-loop:" + o.Name())
 	}
@@ -1936,6 +1941,7 @@ func (se *symExec) evalCallMulti(call *ast.CallExpr, st *sstate) []pathResult {
 		} else {
 			name = "dyn:" + se.canon(call.Fun)
 		}
+		c.st.forgetText("has(") // an opaque call may change the containers
 		c.st.seq++
 		c.st.calls = append(c.st.calls, callRec{callee: name, args: c.args, recv: c.recv, pos: call.Pos(), seq: c.st.seq})
 		// a trivial getter of another package: `func (l *List) Len() int { return len(l.Items) }`
@@ -2080,8 +2086,37 @@ func (se *symExec) inline(fn *types.Func, fd *ast.FuncDecl, recv *val, args []va
 		}
 		st.vars[obj] = v
 	}
+	// a parameter that the callee never assigns is rendered as the caller's argument when that is a plain
+	// access path (x, x.f, x.f.g): the texts inside a helper then read as if it had been written in place
+	assigned := map[types.Object]bool{}
+	for _, o := range se.assignedIn(fd.Body) {
+		assigned[o] = true
+	}
+	var purePath func(e ast.Expr) bool
+	purePath = func(e ast.Expr) bool {
+		switch x := unparen(e).(type) {
+		case *ast.Ident:
+			return x.Name != "_" && x.Name != "nil"
+		case *ast.SelectorExpr:
+			return purePath(x.X)
+		}
+		return false
+	}
+	alias := func(id *ast.Ident, arg ast.Expr) {
+		obj := se.info.Defs[id]
+		if obj == nil || assigned[obj] || arg == nil || !purePath(arg) {
+			return
+		}
+		if _, isConst := se.info.Types[arg]; isConst && se.info.Types[arg].Value != nil {
+			return
+		}
+		se.params[obj] = se.canon(arg)
+	}
 	if fd.Recv != nil && len(fd.Recv.List) == 1 && len(fd.Recv.List[0].Names) == 1 && recv != nil {
 		bind(fd.Recv.List[0].Names[0], *recv)
+		if sel, ok := unparen(call.Fun).(*ast.SelectorExpr); ok {
+			alias(fd.Recv.List[0].Names[0], sel.X)
+		}
 		// a *Vm receiver keeps the canonical name "vm"
 		if nm := se.recvCanon(call); nm != "" {
 			se.params[se.info.Defs[fd.Recv.List[0].Names[0]]] = nm
@@ -2092,6 +2127,9 @@ func (se *symExec) inline(fn *types.Func, fd *ast.FuncDecl, recv *val, args []va
 		for _, id := range f.Names {
 			if i < len(args) {
 				bind(id, args[i])
+				if i < len(call.Args) && len(call.Args) == len(args) {
+					alias(id, call.Args[i])
+				}
 				se.nameByDesc(se.info.Defs[id], args[i])
 				if i < len(call.Args) {
 					if aid := identOf(call.Args[i]); aid != nil {
